@@ -634,6 +634,15 @@ func allocEscapes(a *ssa.Alloc) bool {
 					return true
 				}
 			case *ssa.DebugRef:
+			case *ssa.MakeClosure:
+				// captured by a closure: fine as long as the closure only ever loads the variable (the closure
+				// itself may go anywhere - nobody can write the cell through it)
+				fn, _ := x.Fn.(*ssa.Function)
+				for i, b := range x.Bindings {
+					if b == v && (fn == nil || i >= len(fn.FreeVars) || !onlyLoaded(fn.FreeVars[i], map[ssa.Value]bool{})) {
+						return true
+					}
+				}
 			default:
 				return true
 			}
@@ -641,6 +650,36 @@ func allocEscapes(a *ssa.Alloc) bool {
 		return false
 	}
 	return visit(a)
+}
+
+// onlyLoaded reports whether a captured variable's cell is only read inside the closure (and the closures it is
+// handed on to).
+func onlyLoaded(v ssa.Value, seen map[ssa.Value]bool) bool {
+	if seen[v] {
+		return true
+	}
+	seen[v] = true
+	refs := v.Referrers()
+	if refs == nil {
+		return false
+	}
+	for _, r := range *refs {
+		switch x := r.(type) {
+		case *ssa.UnOp:
+			// load
+		case *ssa.DebugRef:
+		case *ssa.MakeClosure:
+			fn, _ := x.Fn.(*ssa.Function)
+			for i, b := range x.Bindings {
+				if b == v && (fn == nil || i >= len(fn.FreeVars) || !onlyLoaded(fn.FreeVars[i], seen)) {
+					return false
+				}
+			}
+		default:
+			return false
+		}
+	}
+	return true
 }
 
 // havocAllKeepLocals havocs the whole heap (an unspecified callee) but keeps the contents of the local variables
